@@ -56,7 +56,7 @@ def prop(pid, title, **kw):
 prop('C01', 'every mutator implements bounded-deque semantics', stubs=[ROT_STUB])
 prop('C02', 'single-element insertion never loses an element')
 prop('C03', 'every element dropped exactly once, never while reachable', stubs=[ROT_STUB], code_failures_count=False)
-prop('C04', 'unoccupied storage is never observed', code_failures_count=False)
+prop('C04', 'unoccupied storage is never observed', code_failures_count=False, jobs=10, stubs=[ROT_STUB])
 prop('C05', 'panicking destructor: no second drop, buffer stays valid', e1_configs=[], bounds=E2_BOUNDS,
      e2=[dict(tag='std', features=['std', 'alloc'],
               jobs=e2_jobs([(s, 1, QN5) for s in C05_SCENS] + [('FROM_ARRAY', 1, FA_Q)],
